@@ -1,4 +1,5 @@
 import Swat4.Lemmas.Rest
+import Swat4.Lemmas.RestBody
 import Swat4.Lemmas.Styles
 import Swat4.Lemmas.Clean
 import Swat4.Model.Rest
@@ -313,6 +314,220 @@ example : Styles.clean "[c]abc]".toList = "abc]".toList := by decide
 example : RestSpec.NoCodes "a[c=ff0000]b".toList = false := by decide
 example : RestSpec.NoCodes "[\\U]".toList = false := by decide
 example : RestSpec.NoCodes "[i]x[c".toList = true := by decide
+
+/-! ## the body of a 200 ("200 with the stored data")
+
+**Which part of the JSON body the model covers.**  `Resp.body` carries exactly two members of
+`model.Server` (`/repo/internal/rest/model/server.go:16-44`): `hostname_html` and `hostname_plain`
+(`NewServerFromDomain`, `server.go:53-54`: `styles.Clean(hostname)`, `styles.ToHTML(hostname)` of
+`s.Info.Hostname`).  `POST /api/servers` answers 200 with a `model.Server` (`servers_add.go:48`),
+`GET /api/servers/:address` with a `model.ServerDetail` whose member `info` is that `model.Server`
+(`servers_view.go:50`, `server.go:147-151`, `:172`); the harness reads the two members from the top level
+resp. from `info` (`harness/internal/c17/c17.go`, `execHTTP`) and the driver compares them with the
+model byte for byte (`Drv/C17.lean`, `renderResp`).  `body = none` means: the answer has neither
+member (`~ ~` on the line) — a 400 does have a JSON body, `{"error":"Invalid server address"}`, which
+carries no server data and is not modelled.
+
+**Not covered**, neither by the model nor by the driver's comparison: the other 25 members of
+`model.Server` (`address`, `ip`, `port`, the raw `hostname`, `passworded`, `gamename`, `gamever`,
+`gametype`, `gametype_slug`, `mapname`, `mapname_slug`, `player_num`, `player_max`, `round_num`,
+`round_max`, `time_round`, `time_special`, `score_swat`, `score_sus`, `vict_swat`, `vict_sus`,
+`bombs_defused`, `bombs_total`, `coop_reports`, `coop_weapons`) and the `players` / `objectives`
+arrays of `model.ServerDetail`.  The harness does not read them from the answer, and the planted
+record has only address, query port, status word and hostname set.
+
+Also outside the model (assumption "storage is healthy"): `getserver.ErrUnableToObtainServer`
+(`getserver.go:39`, any repository error other than not-found) has no case in the switch of
+`servers_view.go:30-47`, which has no default; the handler then writes nothing and gin answers with
+its default status 200 and an empty body — a 200 without the stored data.  (`servers_add.go:33-45`
+maps every error `addserver.Execute` returns.) -/
+
+/-- `r` is the model's answer to some `GET /api/servers/:address` when the record addressed is in
+state `st`: at use-case level, for an address given as four bytes and a port, or for any address
+string the model parses (it parses all of them, `view_string_table`) -/
+def ViewAnswer (st : SrvState) (r : Resp) : Prop :=
+  r = viewExecute st ∨ (∃ ip port, r = viewServerIP ip port st) ∨ (∃ address, viewServer address st = some r)
+
+/-- the same for `POST /api/servers`: use-case level for any validated address, four bytes and a
+port, any decoded JSON body the model answers -/
+def AddAnswer (st : SrvState) (r : Resp) : Prop :=
+  (∃ a, r = addExecute a st) ∨ (∃ ip port, r = addServerIP ip port st) ∨ (∃ body, addServer body st = some r)
+
+/-- **The data of a 200 is the stored data, and only a 200 has data.**  If the status is 200 the
+addressed record exists, its status word has the details bit (8), `hostname_html` is
+`Styles.toHTML` and `hostname_plain` is `Styles.clean` of the hostname stored in that record, and
+nothing is stored or queued; if the status is anything else the answer carries neither member. -/
+def StoredBody (st : SrvState) (r : Resp) : Prop :=
+  (r.status = 200 →
+    ∃ w qp h, st = .present w qp h ∧ w &&& 8 ≠ 0 ∧
+      r.body = some (Styles.toHTML h, Styles.clean h) ∧ r.effect = .none) ∧
+  (r.status ≠ 200 → r.body = none)
+
+/-- **"200 with the stored data", `GET`** — for every route of the model (`viewExecute st`,
+`viewServerIP ip port st`, `viewServer address st = some r`): a 200 answer is made from the stored
+hostname `h` of a record with the details bit (`hostname_html = toHTML h`, `hostname_plain =
+clean h`); a 204, 404 or 400 carries no server data.  Covers the two hostname members only — see
+the section comment for the members of `model.Server` outside the model. -/
+theorem view_body (st : SrvState) (r : Resp) (hr : ViewAnswer st r) : StoredBody st r := by
+  have hbad : StoredBody st badRequest := by simp [StoredBody, badRequest]
+  have hex : StoredBody st (viewExecute st) := viewExecute_body st
+  rcases hr with rfl | ⟨ip, port, rfl⟩ | ⟨address, h⟩
+  · exact hex
+  · unfold viewServerIP
+    cases publicAddr ip port with
+    | ok a => exact hex
+    | error e => exact hbad
+  · unfold viewServer at h
+    split at h
+    · cases h; exact hex
+    · cases h; exact hbad
+    · cases h
+
+/-- **"200 with the stored data", `POST`** — for every route of the model (`addExecute a st`,
+`addServerIP ip port st`, `addServer body st = some r`): a 200 answer is made from the stored
+hostname of a record with the details bit and nothing is stored or queued (`effect = .none`); a
+202, 410 or 400 carries no server data.  Same coverage of members as `view_body`. -/
+theorem add_body (st : SrvState) (r : Resp) (hr : AddAnswer st r) : StoredBody st r := by
+  have hbad : StoredBody st badRequest := by simp [StoredBody, badRequest]
+  have hex : ∀ a, StoredBody st (addExecute a st) := fun a => addExecute_body a st
+  rcases hr with ⟨a, rfl⟩ | ⟨ip, port, rfl⟩ | ⟨body, h⟩
+  · exact hex a
+  · unfold addServerIP
+    split
+    · exact hbad
+    · cases publicAddr ip port with
+      | ok a => exact hex a
+      | error e => exact hbad
+  · unfold addServer at h
+    split at h
+    · next a _ => cases h; exact hex a
+    · cases h; exact hbad
+    · cases h
+
+/-- **Every 200 of either handler has inert markup and a code-free plain name**: the answer has
+both members, `hostname_html` is accepted by the reference tokenizer and `hostname_plain` contains
+no style code (`view_body` / `add_body` with `toHTML_inert` / `clean_no_codes`). -/
+theorem view_body_inert (st : SrvState) (r : Resp) (hr : ViewAnswer st r ∨ AddAnswer st r)
+    (h200 : r.status = 200) :
+    ∃ html plain, r.body = some (html, plain) ∧
+      RestSpec.Inert html = true ∧ RestSpec.NoCodes plain = true := by
+  have hb : StoredBody st r := hr.elim (view_body st r) (add_body st r)
+  obtain ⟨_, _, h, _, _, hbody, _⟩ := hb.1 h200
+  exact ⟨_, _, hbody, toHTML_inert h, clean_no_codes h⟩
+
+/-- non-vacuity: a stored hostname with a colour code and `<`, through every route; the 200
+premise holds, the body is the escaped / cleaned stored name, the other rows have no body -/
+example : (viewServerIP ⟨1, 1, 1, 1⟩ 10480 (.present 8 10481 "[c=ff0000]a<b".toList)).status = 200 := by rfl
+example : (viewServerIP ⟨1, 1, 1, 1⟩ 10480 (.present 8 10481 "[c=ff0000]a<b".toList)).body =
+    some ("<span style=\"color:#ff0000;\">a&lt;b</span>".toList, "a<b".toList) := by decide
+example : (viewExecute (.present (8 ||| 16 ||| 256) 10481 "[c=ff0000]a<b".toList)).body =
+    some ("<span style=\"color:#ff0000;\">a&lt;b</span>".toList, "a<b".toList) := by decide
+example : ((viewServer (Bytes.ofAscii "1.1.1.1:10480") (.present 8 10481 "[c=ff0000]a<b".toList)).map (·.body)) =
+    some (some ("<span style=\"color:#ff0000;\">a&lt;b</span>".toList, "a<b".toList)) := by decide
+example : (addServerIP ⟨1, 1, 1, 1⟩ 10480 (.present 8 10481 "[c=ff0000]a<b".toList)).status = 200 := by rfl
+example : (addServerIP ⟨1, 1, 1, 1⟩ 10480 (.present 8 10481 "[c=ff0000]a<b".toList)).body =
+    some ("<span style=\"color:#ff0000;\">a&lt;b</span>".toList, "a<b".toList) := by decide
+example : ((addServer (.obj (.str (Bytes.ofAscii "1.1.1.1")) (.int 10480))
+      (.present 8 10481 "[c=ff0000]a<b".toList)).map (·.body)) =
+    some (some ("<span style=\"color:#ff0000;\">a&lt;b</span>".toList, "a<b".toList)) := by decide
+example : ViewAnswer (.present 8 10481 "[c=ff0000]a<b".toList)
+    (viewServerIP ⟨1, 1, 1, 1⟩ 10480 (.present 8 10481 "[c=ff0000]a<b".toList)) := .inr (.inl ⟨_, _, rfl⟩)
+example : AddAnswer (.present 8 10481 "[c=ff0000]a<b".toList)
+    (addServerIP ⟨1, 1, 1, 1⟩ 10480 (.present 8 10481 "[c=ff0000]a<b".toList)) := .inr (.inl ⟨_, _, rfl⟩)
+-- no data in 204 / 404 / 400 / 202 / 410, whatever hostname is stored
+example : (viewServerIP ⟨1, 1, 1, 1⟩ 10480 (.present 4 10481 "[c=ff0000]a<b".toList)).body = none := by rfl
+example : (viewServerIP ⟨1, 1, 1, 1⟩ 10480 .absent).body = none := by rfl
+example : (viewServerIP ⟨10, 1, 1, 1⟩ 10480 (.present 8 10481 "[c=ff0000]a<b".toList)).body = none := by rfl
+example : (addServerIP ⟨1, 1, 1, 1⟩ 10480 (.present 128 10481 "[c=ff0000]a<b".toList)).body = none := by rfl
+example : (addServerIP ⟨1, 1, 1, 1⟩ 10480 (.present 256 10481 "[c=ff0000]a<b".toList)).body = none := by rfl
+example : (addServerIP ⟨1, 1, 1, 1⟩ 1024 (.present 8 10481 "[c=ff0000]a<b".toList)).body = none := by rfl
+
+/-! ## status bits and the columns of the reference table
+
+`knownOf` (`Lemmas/Rest.lean`) is the only link between the status word of the stored record and
+the columns `known / hasDetails / discoveryPending / noPort` of `RestSpec.Known`, over which
+`add_table` and `view_table` are stated.  It is pinned here bit by bit against the Go code:
+
+* bit values — `internal/core/entities/discovery/status/status.go:12-22` (`1 << iota`): `New` 1,
+  `Master` 2, `Info` 4, `Details` 8, `DetailsRetry` 16, `NoDetails` 32, `Port` 64, `PortRetry` 128,
+  `NoPort` 256; the five the handlers use are compared with the generated facts in `facts_ok`;
+* the tests — `internal/core/entities/server/server.go:64-70`: `HasDiscoveryStatus(s)` is
+  `(w & s) == s`, `HasAnyDiscoveryStatus(s)` is `(w & s) > 0`;
+* the order of the tests in `addserver.maybeDiscoverServer` (`addserver.go:115-142`): `Details`
+  (:116, ⇒ nil ⇒ 200), then `PortRetry|DetailsRetry` (:122, ⇒ in progress ⇒ 202), then `NoPort`
+  (:127, ⇒ 410), then default (:133, discover ⇒ 202) — the same order as `Rest.addExecute` and as
+  `RestSpec.addTable`; `getserver.Execute` (`getserver.go:33-45`): not found ⇒ 404, then
+  `!HasDiscoveryStatus(Details)` (:43) ⇒ 204, else 200 — as `Rest.viewExecute` / `RestSpec.viewTable`. -/
+
+/-- **The columns are exactly these bit tests**, for every status word: `hasDetails` ⇔ bit 8,
+`discoveryPending` ⇔ bit 128 or bit 16, `noPort` ⇔ bit 256; a stored record is `known`, a missing
+one has every column false. -/
+theorem knownOf_spec (w : Nat) (qp : Int) (h : List Char) :
+    (knownOf (.present w qp h)).known = true ∧
+    ((knownOf (.present w qp h)).hasDetails = true ↔ w &&& 8 ≠ 0) ∧
+    ((knownOf (.present w qp h)).discoveryPending = true ↔ (w &&& 128 ≠ 0 ∨ w &&& 16 ≠ 0)) ∧
+    ((knownOf (.present w qp h)).noPort = true ↔ w &&& 256 ≠ 0) ∧
+    knownOf .absent = ⟨false, false, false, false⟩ := by
+  refine ⟨rfl, ?_, ?_, ?_, rfl⟩
+  · exact hasBit_iff w 8
+  · show (hasBit w 128 || hasBit w 16) = true ↔ _
+    rw [Bool.or_eq_true, hasBit_iff, hasBit_iff]
+  · exact hasBit_iff w 256
+
+/-- **…and these are Go's tests**, in the form `server.go:64-70` computes them:
+`HasDiscoveryStatus(ds.Details)` = `(w & 8) == 8` (`addserver.go:116`, `getserver.go:43`),
+`HasAnyDiscoveryStatus(ds.PortRetry | ds.DetailsRetry)` = `(w & (128|16)) > 0` (`addserver.go:122`),
+`HasDiscoveryStatus(ds.NoPort)` = `(w & 256) == 256` (`addserver.go:127`). -/
+theorem knownOf_go (w : Nat) (qp : Int) (h : List Char) :
+    ((knownOf (.present w qp h)).hasDetails = true ↔ w &&& 8 = 8) ∧
+    ((knownOf (.present w qp h)).discoveryPending = true ↔ w &&& (128 ||| 16) > 0) ∧
+    ((knownOf (.present w qp h)).noPort = true ↔ w &&& 256 = 256) := by
+  obtain ⟨_, h1, h2, h3, _⟩ := knownOf_spec w qp h
+  exact ⟨h1.trans (and_two_pow_eq_self_iff w 3).symm, h2.trans (and_or_pos_iff w 128 16).symm,
+    h3.trans (and_two_pow_eq_self_iff w 8).symm⟩
+
+/-- **One status bit at a time** (`status.go:12-22`), for any query port and hostname: `Details`
+(8) sets the `hasDetails` column only (`addserver.go:116`, `getserver.go:43`), `PortRetry` (128)
+and `DetailsRetry` (16) each the `discoveryPending` column only (`addserver.go:122`), `NoPort` (256)
+the `noPort` column only (`addserver.go:127`); `New`, `Master`, `Info`, `NoDetails`, `Port` and the
+empty word set none (default branch, `addserver.go:133`); a missing record is not even `known`. -/
+theorem knownOf_bits (qp : Int) (h : List Char) :
+    knownOf (.present 8 qp h) = ⟨true, true, false, false⟩ ∧       -- Details
+    knownOf (.present 128 qp h) = ⟨true, false, true, false⟩ ∧     -- PortRetry: pending, addserver.go:122
+    knownOf (.present 16 qp h) = ⟨true, false, true, false⟩ ∧      -- DetailsRetry: pending, addserver.go:122
+    knownOf (.present 256 qp h) = ⟨true, false, false, true⟩ ∧     -- NoPort, addserver.go:127
+    knownOf (.present 1 qp h) = ⟨true, false, false, false⟩ ∧      -- New: default branch, addserver.go:133
+    knownOf (.present 2 qp h) = ⟨true, false, false, false⟩ ∧      -- Master
+    knownOf (.present 4 qp h) = ⟨true, false, false, false⟩ ∧      -- Info
+    knownOf (.present 32 qp h) = ⟨true, false, false, false⟩ ∧     -- NoDetails
+    knownOf (.present 64 qp h) = ⟨true, false, false, false⟩ ∧     -- Port
+    knownOf (.present 0 qp h) = ⟨true, false, false, false⟩ ∧      -- NoStatus
+    knownOf .absent = ⟨false, false, false, false⟩ := by
+  refine ⟨rfl, rfl, rfl, rfl, rfl, rfl, rfl, rfl, rfl, rfl, rfl⟩
+
+-- the same one by one, and words with several bits: the columns are independent of each other and
+-- of the five bits the handlers do not look at; the table then applies its own priority
+example : knownOf (.present 8 10481 []) = ⟨true, true, false, false⟩ := by decide       -- status.go:16 Details
+example : knownOf (.present 128 10481 []) = ⟨true, false, true, false⟩ := by decide     -- status.go:20 PortRetry
+example : knownOf (.present 16 10481 []) = ⟨true, false, true, false⟩ := by decide      -- status.go:17 DetailsRetry
+example : knownOf (.present 256 10481 []) = ⟨true, false, false, true⟩ := by decide     -- status.go:21 NoPort
+example : knownOf (.present 1 10481 []) = ⟨true, false, false, false⟩ := by decide      -- status.go:13 New
+example : knownOf (.present 2 10481 []) = ⟨true, false, false, false⟩ := by decide      -- status.go:14 Master
+example : knownOf (.present 4 10481 []) = ⟨true, false, false, false⟩ := by decide      -- status.go:15 Info
+example : knownOf (.present 32 10481 []) = ⟨true, false, false, false⟩ := by decide     -- status.go:18 NoDetails
+example : knownOf (.present 64 10481 []) = ⟨true, false, false, false⟩ := by decide     -- status.go:19 Port
+example : knownOf .absent = ⟨false, false, false, false⟩ := by decide                   -- repositories.ErrServerNotFound
+example : knownOf (.present (8 ||| 128 ||| 256) 10481 []) = ⟨true, true, true, true⟩ := by decide
+example : knownOf (.present (1 ||| 2 ||| 4 ||| 32 ||| 64) 10481 []) = ⟨true, false, false, false⟩ := by decide
+example : knownOf (.present 511 10481 []) = ⟨true, true, true, true⟩ := by decide
+-- priority among the columns is the table's and the handler's alike (addserver.go:116 before :122 before :127)
+example : (addServerIP ⟨1, 1, 1, 1⟩ 10480 (.present (8 ||| 128 ||| 256) 10481 [])).status = 200 := by rfl
+example : RestSpec.addTable true ⟨true, true, true, true⟩ = 200 := by decide
+example : (addServerIP ⟨1, 1, 1, 1⟩ 10480 (.present (16 ||| 256) 10481 [])).status = 202 := by rfl
+example : RestSpec.addTable true ⟨true, false, true, true⟩ = 202 := by decide
+example : (addServerIP ⟨1, 1, 1, 1⟩ 10480 (.present (256 ||| 64) 10481 [])).status = 410 := by rfl
+example : RestSpec.addTable true ⟨true, false, false, true⟩ = 410 := by decide
+example : (viewServerIP ⟨1, 1, 1, 1⟩ 10480 (.present (16 ||| 128 ||| 256) 10481 [])).status = 204 := by rfl
 
 /-! ## facts read from the source -/
 
